@@ -674,7 +674,7 @@ pub fn run(args: &Args) {
     let kind_of = |s: &Src| -> usize { let b = match s { Src::Sub { inner, .. } => &**inner, x => x }; match b { Src::Mut { .. } => 0, Src::Enum { .. } => 1, Src::Rand { .. } => 2, _ => 3 } };
     // long inputs go to Coq only for models that run in linear time (the sequence decoders re-measure the
     // remaining slice in every iteration, the PA-Zip model appends to its observation list)
-    let coq_long_ok = |m: u32| matches!(m, 1 | 3 | 10..=26 | 50 | 51 | 52 | 80 | 81 | 90 | 91 | 100 | 103 | 82 | 140 | 142);
+    let coq_long_ok = |m: u32| matches!(m, 1 | 3 | 10..=26 | 50 | 51 | 52 | 80 | 81 | 90 | 91 | 100 | 103 | 82 | 140 | 142 | 150..=153);
     let is_long = |s: &Src| matches!(match s { Src::Sub { inner, .. } => &**inner, x => x }, Src::Long { .. });
     let modelled = |s: &Src| s.parser().map(|p| ps[p].model != 0 && (!is_long(s) || coq_long_ok(ps[p].model))).unwrap_or(false);
     let mut kind_total = [0usize; 4];
@@ -740,7 +740,7 @@ pub fn run(args: &Args) {
         aux_cache.borrow_mut().entry(p).or_insert_with(|| (ps[p].aux)()).clone()
     };
     // hex_decode(&str): the cell refuses bytes that are not UTF-8 before the parser sees them
-    let aux_for = |p: usize, bytes: &[u8]| -> Vec<u64> { if ps[p].model == 82 { vec![std::str::from_utf8(bytes).is_ok() as u64] } else { aux_of(p) } };
+    let aux_for = |p: usize, bytes: &[u8]| -> Vec<u64> { if ps[p].model == 82 || (150..=153).contains(&ps[p].model) { vec![std::str::from_utf8(bytes).is_ok() as u64] } else { aux_of(p) } };
     // ---- oracle verdicts ---------------------------------------------------------------------------
     let mut failed: std::collections::HashSet<(usize, usize)> = Default::default();
     for f in &res.fails {
